@@ -11,8 +11,8 @@ use serde_json::{json, Value};
 use std::io::Write;
 use std::sync::Arc;
 
-pub const COMPANIONS: [u32; 11] = [
-    0x61, 0x41, 0x200c, 0x200d, 0x0628, 0x0375, 0x05f3, 0x30fb, 0x05d0, 0x0661, 0x20,
+pub const COMPANIONS: [u32; 13] = [
+    0x61, 0x41, 0x200c, 0x200d, 0x0628, 0x0375, 0x05f3, 0x30fb, 0x05d0, 0x0661, 0x20, 0xa0, 0xff21,
 ];
 
 fn rel(cp: u32, v: &[u32]) -> Value {
@@ -95,10 +95,14 @@ pub fn obs_of(o: &Oracle, cp: u32) -> Value {
         "kana": ctx_obs("katakana", &[0x30fb, cp], 0),
         "ld": ctx_obs("zwnj", &[cp, 0x200c, 0x0628], 1),
         "rd": ctx_obs("zwnj", &[0x0628, 0x200c, cp], 1),
-        "wm": [one("UCM", "width_mapping_rule", &[cp]), one("UCP", "width_mapping_rule", &[a, cp]), one("UCM", "width_mapping_rule", &[cp, a])],
+        "wm": [one("UCM", "width_mapping_rule", &[cp]), one("UCP", "width_mapping_rule", &[a, cp]), one("UCM", "width_mapping_rule", &[cp, a]),
+               one("UCP", "width_mapping_rule", &[0xff21, cp])],
         "lc": [one("UCM", "case_mapping_rule", &[cp]), one("NICK", "case_mapping_rule", &[big_a, cp]), one("UCM", "case_mapping_rule", &[cp, big_a])],
         "osp": one("OPQ", "additional_mapping_rule", &[a, cp, a]),
         "nsp": one("NICK", "additional_mapping_rule", &[a, cp, a]),
+        // the same character AFTER the first character that triggers the copying path
+        "osp2": one("OPQ", "additional_mapping_rule", &[0xa0, cp, a]),
+        "nsp2": one("NICK", "additional_mapping_rule", &[a, 0xa0, cp, a]),
         "bidi": [
             dir_ok(&[0x05d0, cp]),
             if is_nsm { json!("skip") } else { dir_ok(&[0x05d0, cp, 0x05d0]) },
